@@ -1,10 +1,131 @@
-import AcraModel.Basic.Bytes
-/-! Driver ops for C18. -/
+import AcraModel.KeystoreSec.Der
+import AcraModel.Crypto.Shim
+/-!
+Driver ops for C18 (v2 export / import at the level of plaintext key-ring views).
+
+`C18.v2 <wp 0|1> <nsrc> <ring>… <nsel> <path>… <ntgt> <ring>…`
+* ring = `<path hex>;<current>;<key>|<key>…` (`-` = no keys)
+* key  = `<seq>,<state>,<since>,<until>,<data>&<data>…` (`-` = no data)
+* data = `<format>:<pub hex>:<priv hex>:<sym hex>` – all material in plaintext
+Result: `<xerr | ok | err> <n> <ring>…` = export failed | import succeeded | import failed, followed
+by the plaintext view of every ring of the target afterwards (sorted by path).
+-/
 namespace Driver.C18
-open AcraModel
+open AcraModel AcraModel.KeystoreSec AcraModel.KeystoreSec.Export
+
+def parseInt (s : String) : Option Int :=
+  if s.startsWith "-" then (s.drop 1).toNat?.map fun n => -(n : Int) else s.toNat?.map fun n => (n : Int)
+
+def parseData (s : String) : Option KeyData :=
+  match s.splitOn ":" with
+  | [f, a, b, c] => do
+    let f ← f.toNat?; let a ← ofHex a; let b ← ofHex b; let c ← ofHex c
+    pure ⟨f, a, b, c⟩
+  | _ => none
+
+def parseKey (s : String) : Option Key :=
+  match s.splitOn "," with
+  | [a, b, c, d, e] => do
+    let a ← parseInt a; let b ← b.toNat?; let c ← parseInt c; let d ← parseInt d
+    let ds ← if e = "-" then some [] else (e.splitOn "&").mapM parseData
+    pure ⟨a, b, c, d, ds⟩
+  | _ => none
+
+def parseRing (s : String) : Option Ring :=
+  match s.splitOn ";" with
+  | [p, c, ks] => do
+    let p ← ofHex p; let c ← parseInt c
+    let ks ← if ks = "-" then some [] else (ks.splitOn "|").mapM parseKey
+    pure ⟨p, ks, c⟩
+  | _ => none
+
+def showData (d : KeyData) : String := s!"{d.format}:{hexOf d.pub}:{hexOf d.priv}:{hexOf d.sym}"
+def showKey (k : Key) : String :=
+  s!"{k.seq},{k.state},{k.since},{k.until_}," ++ (if k.data.isEmpty then "-" else "&".intercalate (k.data.map showData))
+def showRing (r : Ring) : String :=
+  s!"{hexOf r.purpose};{r.current};" ++ (if r.keys.isEmpty then "-" else "|".intercalate (r.keys.map showKey))
+
+def fixedNonce : Nonces := fun _ _ => List.replicate 12 0
+
+/-- store a plaintext ring the way the key store would (every key data item encrypted for its ring
+and seqnum); keys without data (destroyed) are stored as they are -/
+def storeRing (master : Bytes) (x : Ring) : Option Ring := do
+  let ks ← x.keys.mapM fun k => do
+    let ds ← k.data.mapM (addKeyData shimOps fixedNonce master x.purpose k.seq)
+    pure { k with data := ds }
+  pure { x with keys := ks }
+
+/-- what a ring looks like after it went through a DER round trip: the data items of every key
+(a SET OF) come back sorted by their encodings. Identity for keys with at most one data item. -/
+def canonRing (r : Ring) : Ring :=
+  { r with keys := r.keys.map fun k => { k with data := Der.sortBy Der.derKeyData k.data } }
+
+/-- a ring list after a DER round trip (SET OF rings, SET OF data) -/
+def canonRings (rs : List Ring) : List Ring := Der.sortBy Der.derRing (rs.map canonRing)
+
+/-- `importRings` with the stored form of every written ring canonicalised (it is serialised) -/
+def importRingsC : Store → List Ring → Store × Bool
+  | s, [] => (s, true)
+  | s, x :: xs =>
+    match importKeyRing shimOps fixedNonce s x with
+    | (s', true) =>
+      let s'' := match s'.get x.purpose with
+        | some r => s'.put x.purpose (canonRing r)
+        | none => s'
+      importRingsC s'' xs
+    | (s', false) => (s', false)
+
+def mkStore (master : Bytes) (rs : List Ring) : Option Store := do
+  let stored ← rs.mapM (storeRing master)
+  pure (stored.foldl (fun s r => s.put r.purpose (canonRing r)) ⟨master, fun _ => none⟩)
+
+def takeN {α} (n : Nat) (xs : List α) : Option (List α × List α) :=
+  if xs.length < n then none else some (xs.take n, xs.drop n)
+
+def insertSorted (p : Bytes) : List Bytes → List Bytes
+  | [] => [p]
+  | q :: r => if p = q then q :: r else if decide (hexOf p < hexOf q) then p :: q :: r else q :: insertSorted p r
+
+def srcMaster : Bytes := Path.ofStr "source-master-key-0123456789abcdef"
+def tgtMaster : Bytes := Path.ofStr "target-master-key-0123456789abcdef"
+
+def view (T : Store) (paths : List Bytes) : String :=
+  let rs := paths.filterMap fun p =>
+    match T.get p with
+    | none => none
+    | some r => match exportRing shimOps T.master p true r with
+      | .ok x => some (showRing x)
+      | _ => some (hexOf p ++ ";undecryptable")
+  s!"{rs.length}" ++ String.join (rs.map (" " ++ ·))
 
 def handle (op : String) (args : List String) : Option String :=
   match op, args with
+  | "v2", wp :: ns :: rest => do
+    let wp := wp = "1"
+    let ns ← ns.toNat?
+    let (src, rest) ← takeN ns rest
+    let src ← src.mapM parseRing
+    match rest with
+    | nsel :: rest => do
+      let nsel ← nsel.toNat?
+      let (sel, rest) ← takeN nsel rest
+      let sel ← sel.mapM ofHex
+      match rest with
+      | nt :: rest => do
+        let nt ← nt.toNat?
+        let (tgt, rest) ← takeN nt rest
+        if rest ≠ [] then none
+        let tgt ← tgt.mapM parseRing
+        let S ← mkStore srcMaster src
+        let T ← mkStore tgtMaster tgt
+        let paths := (tgt.map (·.purpose) ++ src.map (·.purpose)).foldl (fun acc p => insertSorted p acc) []
+        match exportRings shimOps S wp sel with
+        | none => pure ("xerr " ++ view T paths)
+        | some xs =>
+          let (T', ok) := importRingsC T (canonRings xs)
+          pure ((if ok then "ok " else "err ") ++ view T' paths)
+      | _ => none
+    | _ => none
   | _, _ => none
 
 end Driver.C18
